@@ -878,6 +878,13 @@ func freshPoint(r *hx.Rand, f ingest.Feature) string {
 
 // listEdit: extend at index == len (2 in 3), or overwrite an existing position
 func listEdit(r *hx.Rand, f ingest.Feature) string {
+	if t := f.Get(b6.PathTag); t.IsValid() {
+		if _, isList := t.Value.AnyExpression.(b6.Expressions); !isList {
+			// an earlier ModifyOrAddTag made `path` a plain value: ModifyOrAddTagAt would AddTag a SECOND `path`
+			// tag (keys no longer distinct - outside the domain, RemoveTag can panic half-way): make it a list again
+			return fmt.Sprintf("setlist %s %d %s", b6.PathTag, r.Intn(3), hx.List([]string{freshPoint(r, f), freshPoint(r, f)}))
+		}
+	}
 	n := listLen(f, b6.PathTag)
 	i := n
 	if n > 0 && r.Chance(1, 3) {
@@ -932,7 +939,7 @@ func listCase(c *hx.Ctx) {
 	for round := 0; round < rounds; round++ {
 		v := holders[r.Intn(len(holders))]
 		m := listEdit(r, run.vars[v])
-		if strings.Fields(m)[2] == fmt.Sprint(listLen(run.vars[v], b6.PathTag)) {
+		if strings.HasPrefix(m, "setat") && strings.Fields(m)[2] == fmt.Sprint(listLen(run.vars[v], b6.PathTag)) {
 			c.Note("list:extend-at-len")
 		} else {
 			c.Note("list:overwrite")
